@@ -208,9 +208,16 @@ def fips_strategy(tier):
 # duplex histories
 def check_duplex(c):
     b, r = c["b"], c["r"]
-    k = guard(Keccak, b=b, r=r)
+    k = guard(Keccak, b=b, r=r, len=64)
     D = R.Duplex(b, r)
     for i, (m, L, outlen) in enumerate(c["calls"]):
+        if outlen == "hash":
+            # an ordinary one-shot hash on the same object between duplexing calls: it has its own state and bit order
+            got = guard(k, m, bitlen=L) if L else guard(k, m[:0])
+            exp = R.keccak(b, r, m, L, 64, True) if L else R.keccak(b, r, b"", 0, 64, True)
+            if got != exp:
+                raise Violation("duplex-history:interleaved-hash!=reference", {"call": i, "out": exp}, {"call": i, "out": got})
+            continue
         bits = R.msgbits(m, L, False)
         if L > r - 2:
             st_, res = attempt(k.duplex, m, bitlen=L, outlen=outlen) if L else attempt(k.duplex, m, outlen=outlen)
@@ -238,7 +245,7 @@ def duplex_strategy(tier):
                 return (m, L, ol)
             Ls = gen.pick((2, st.sampled_from(sorted(set([0, 1, max(0, r - 3), max(0, r - 2)])))), (3, gen.uint(0, max(0, r - 2))),
                           (1, st.sampled_from([r - 1, r, r + 5])))
-            ols = gen.pick((1, st.none()), (2, gen.uint(1, r)), (1, st.sampled_from(sorted(set([1, min(8, r), r])))))
+            ols = gen.pick((2, st.none()), (4, gen.uint(1, r)), (2, st.sampled_from(sorted(set([1, min(8, r), r])))), (2, st.just("hash")))
             return st.lists(st.builds(one, Ls, ols, gen.blob(32)), min_size=1, max_size=maxcalls).map(
                 lambda calls: {"b": b, "r": r, "calls": tuple(calls)})
         w = b // 25
@@ -291,9 +298,10 @@ FACETS = [
           rule="random messages up to 700 bytes, SHAKE output 8..3200 bits"),
     Facet("duplex-histories", check_duplex, strategy=duplex_strategy, budget={"quick": 400, "thorough": 10000},
           shards={"quick": 16, "thorough": 32}, nontrivial=lambda c: len(c["calls"]) >= 2,
-          classify=lambda c: ("b=%d" % c["b"], "calls=%d" % len(c["calls"]), "has over-long input" if any(L > c["r"] - 2 for _, L, _ in c["calls"]) else "all fit"),
+          classify=lambda c: ("b=%d" % c["b"], "calls=%d" % len(c["calls"]), "has over-long input" if any(L > c["r"] - 2 and o != "hash" for _, L, o in c["calls"]) else "all fit",
+                              "has interleaved hash" if any(o == "hash" for _, _, o in c["calls"]) else "duplex only"),
           rule="1..4 (10) duplexing calls on one object (input 0..r-2 bits, output 1..r bits) against the reference duplex object after every call; "
-               "an input longer than r-2 bits must be refused"),
+               "an input longer than r-2 bits must be refused; ordinary hash calls on the same object are interleaved and must neither disturb nor be disturbed"),
     Facet("reused-object", check_history, strategy=history_strategy, budget={"quick": 300, "thorough": 8000},
           shards={"quick": 16, "thorough": 32}, nontrivial=lambda c: True, classify=lambda c: ("b=%d" % c["b"],),
           rule="2..4 messages hashed one after the other by ONE sponge object"),
